@@ -33,6 +33,7 @@ type schedResult struct {
 	Leak            string
 	HandlerStatus   uint32
 	HandlerRet      bool
+	UnreadBytes     int64
 	NeededClose     bool // HTTP: pending operations only completed after the harness closed the send side
 	HandlerRetEarly bool // the handler returned without needing the client to close/drain first
 	HandlerRan      bool
@@ -49,7 +50,7 @@ var schedBound = time.Duration(envInt("VERIF_SCHED_BOUND_MS", 10000)) * time.Mil
 // runSchedule executes the schedule and the completion phases; see DESIGN 2.5.
 func runSchedule(carrier, kind string, steps []Step, postOps bool) *schedResult {
 	res := &schedResult{}
-	r := &rpcRun{kind: kind, carrier: carrier, actors: map[string]*actor{"cs": newActor("cs"), "cr": newActor("cr"), "h": newActor("h"), "h2": newActor("h2")}, hDone: make(chan struct{})}
+	r := &rpcRun{kind: kind, carrier: carrier, actors: map[string]*actor{"cs": newActor("cs"), "cs2": newActor("cs2"), "cr": newActor("cr"), "h": newActor("h"), "h2": newActor("h2")}, hDone: make(chan struct{})}
 	hasReturn := false
 	for _, st := range steps {
 		if a := r.actors[st.Actor]; a != nil {
@@ -85,6 +86,7 @@ func runSchedule(carrier, kind string, steps []Step, postOps bool) *schedResult 
 	}
 	r.cs = cs
 	go r.actors["cs"].loop(r)
+	go r.actors["cs2"].loop(r)
 	go r.actors["cr"].loop(r)
 	for _, st := range steps {
 		if st.Actor == "x" {
@@ -155,28 +157,34 @@ func runSchedule(carrier, kind string, steps []Step, postOps bool) *schedResult 
 		res.HandlerRetEarly = true
 		r.actors["cr"].releaseAll(drain...)
 		r.actors["cs"].releaseAll()
+		r.actors["cs2"].releaseAll()
 		r.mu.Lock()
 		closedAlready := r.clientClosed
 		r.mu.Unlock()
-		if isHTTP(carrier) && !closedAlready {
+		// net/http gives up waiting for the end of the request after discarding 256 KiB of it and
+		// sends the reply anyway: with more than that offered and unread, nothing is withheld
+		unread := r.bytesOffered.Load() - r.bytesTaken.Load()
+		res.UnreadBytes = unread
+		if isHTTP(carrier) && !closedAlready && unread < 300<<10 {
 			// HTTP/1.1 is half-duplex (httpgrpc/doc.go): net/http withholds the reply until the
 			// request body has ended. Give the operations a moment; if they are still pending,
 			// end the request and note that this was needed (open known finding).
-			if !waitActorsIdle(60*time.Millisecond, r.actors["cs"], r.actors["cr"]) {
+			if !waitActorsIdle(60*time.Millisecond, r.actors["cs"], r.actors["cs2"], r.actors["cr"]) {
 				res.NeededClose = true
 				r.actors["cs"].releaseAll(Step{Actor: "cs", Op: "close"})
 			}
 		}
-		stopWhenDone(r.actors["cs"], r.actors["cr"])
-		if !waitActors(schedBound, r.actors["cs"], r.actors["cr"]) {
+		stopWhenDone(r.actors["cs"], r.actors["cs2"], r.actors["cr"])
+		if !waitActors(schedBound, r.actors["cs"], r.actors["cs2"], r.actors["cr"]) {
 			res.StallA = fmt.Sprintf("the handler has returned (client closed its send side: %v), yet client operations are still blocked after %v\n%s", closedAlready || res.NeededClose, schedBound, goroutineDump())
 		}
 	} else {
 		// phase A3: the handler waits for the client: close the send side and drain
 		r.actors["cs"].releaseAll(Step{Actor: "cs", Op: "close"})
+		r.actors["cs2"].releaseAll()
 		r.actors["cr"].releaseAll(drain...)
-		stopWhenDone(r.actors["cs"], r.actors["cr"])
-		clientDone := waitActors(schedBound, r.actors["cs"], r.actors["cr"])
+		stopWhenDone(r.actors["cs"], r.actors["cs2"], r.actors["cr"])
+		clientDone := waitActors(schedBound, r.actors["cs"], r.actors["cs2"], r.actors["cr"])
 		hd := true
 		r.mu.Lock()
 		started = r.handlerStarted
@@ -197,7 +205,7 @@ func runSchedule(carrier, kind string, steps []Step, postOps bool) *schedResult 
 	r.cancelled = true
 	r.mu.Unlock()
 	r.cancel()
-	if !waitActors(schedBound, r.actors["cs"], r.actors["cr"]) {
+	if !waitActors(schedBound, r.actors["cs"], r.actors["cs2"], r.actors["cr"]) {
 		res.StallB = "client operations still blocked " + schedBound.String() + " after the context was cancelled\n" + goroutineDump()
 	}
 	if started {
@@ -291,7 +299,7 @@ func propC05(c c05Case) *Outcome {
 	o.Observed = obs
 	// non-trivial: the handler returned while a client op was pending or still to come, or ops after completion, or close racing send
 	for _, e := range res.Events {
-		if (e.Step.Actor == "cs" || e.Step.Actor == "cr") && e.HandlerReturned && e.Seq <= len(c.Steps) {
+		if (e.Step.Actor == "cs" || e.Step.Actor == "cs2" || e.Step.Actor == "cr") && e.HandlerReturned && e.Seq <= len(c.Steps) {
 			o.NonTrivial = true
 		}
 		if e.Parked {
@@ -358,7 +366,11 @@ func propC05(c c05Case) *Outcome {
 		if cardinalityEnd {
 			continue
 		}
-		switch e.Step.Actor + "/" + e.Step.Op {
+		evKey := e.Step.Actor + "/" + e.Step.Op
+		if e.Step.Actor == "cs2" {
+			evKey = "cs/" + e.Step.Op
+		}
+		switch evKey {
 		case "cs/send":
 			if e.ClientClosed || cardAny {
 				// send after our own CloseSend: any error. cardAny: the client transport ends the
@@ -496,6 +508,9 @@ func genStepsFor(t *rapid.T, kind string, allowCancel bool, maxSteps int, second
 		if secondHandlerGoroutine {
 			actorPool = append(actorPool, "h2")
 		}
+		if clientStreaming(kind) {
+			actorPool = append(actorPool, "cs2")
+		}
 		a := rapid.SampledFrom(actorPool).Draw(t, "actor")
 		st := Step{Actor: a}
 		switch a {
@@ -504,13 +519,16 @@ func genStepsFor(t *rapid.T, kind string, allowCancel bool, maxSteps int, second
 			if st.Op == "send" {
 				st.Size = rapid.SampledFrom([]int{0, 5, 200}).Draw(t, "size")
 			}
+		case "cs2":
+			// a second client goroutine: CloseSend racing whatever the sender is doing
+			st.Op = "close"
 		case "cs":
 			st.Op = rapid.SampledFrom([]string{"send", "send", "send", "close"}).Draw(t, "csop")
 			if !clientStreaming(kind) {
 				st.Op = "close"
 			}
 			if st.Op == "send" {
-				st.Size = rapid.SampledFrom([]int{0, 5, 5, 200, 100000}).Draw(t, "size")
+				st.Size = rapid.SampledFrom([]int{0, 5, 5, 200, 100000, 120000, 350000}).Draw(t, "size")
 			}
 		case "cr":
 			st.Op = rapid.SampledFrom([]string{"recv", "recv", "recv", "header", "trailer"}).Draw(t, "crop")
